@@ -211,6 +211,14 @@ UNITS = {
         "src": "src/database/database.rs",
         "anchors": ["pub(crate) fn encode_value_as_key<B: crate::encoding::key::KeyBuffer>("],
     },
+    "toast": {
+        "src": "src/storage/toast.rs",
+        "anchors": ["pub fn decode(data: &[u8]) -> Result<Self>", "pub fn encode(&self) -> [u8; TOAST_POINTER_SIZE]", "pub fn is_toast_pointer(data: &[u8]) -> bool"],
+    },
+    "sq8": {
+        "src": "src/hnsw/quantization.rs",
+        "anchors": ["pub fn from_bytes(buf: &'a [u8]) -> eyre::Result<Self>"],
+    },
 }
 
 PROPS = {
@@ -278,8 +286,8 @@ PROPS = {
     },
     "C14": {
         "level": "proof",
-        "level_text": "Proof for the value-level kernels of the WHERE evaluator (CompiledPredicate::compare_values, eval_binary_op AND/OR, eval_unary_op NOT): for every Int/Float/NULL operand pair and all six comparison operators the kernel answers true iff the comparison is TRUE under SQL three-valued logic (minus the known NULL = NULL class); AND/OR/NOT results are TRUE exactly when Kleene logic says TRUE. Bounded stand-ins on literal expression trees: eval_expr over AND/OR of boolean literals; IS [NOT] NULL over NULL, TRUE and the computed operand NULL + TRUE through eval_value and eval_expr. Partial: IN lists, BETWEEN, LIKE, text comparison, column lookup, the optimizer's pushdown and which evaluator a query uses are not covered.",
-        "level_note": "Partial. Open known findings: NULL = NULL is TRUE; AND/OR return 0 instead of NULL for UNKNOWN; eval_expr has no NOT arm (answers true). Int/Float comparison uses the engine's `as f64` coercion (exact comparison above 2^53 is not demanded). Trusted: CompiledPredicate::new as compiled by Kani (hashbrown map construction), never dropped.",
+        "level_text": "Proof for the value-level kernels of the WHERE evaluator (CompiledPredicate::compare_values, eval_binary_op AND/OR, eval_unary_op NOT): for every Int/Float/NULL operand pair and all six comparison operators the kernel answers true iff the comparison is TRUE under SQL three-valued logic (minus the known NULL = NULL class); AND/OR/NOT results are TRUE exactly when Kleene logic says TRUE. Bounded stand-ins on literal expression trees: eval_expr over AND/OR of boolean literals; IS [NOT] NULL over NULL, TRUE and the computed operand NULL + TRUE; [NOT] IN and [NOT] BETWEEN over non-NULL boolean literals — through eval_value and eval_expr. Partial: IN lists, BETWEEN, LIKE, text comparison, column lookup, the optimizer's pushdown and which evaluator a query uses are not covered.",
+        "level_note": "Partial. Open known findings: NULL = NULL is TRUE; AND/OR return 0 instead of NULL for UNKNOWN; eval_expr has no NOT arm (answers true); NOT IN / NOT BETWEEN with a NULL answer TRUE instead of UNKNOWN. Int/Float comparison uses the engine's `as f64` coercion (exact comparison above 2^53 is not demanded). Trusted: CompiledPredicate::new as compiled by Kani (hashbrown map construction), never dropped.",
         "technique": "Kani full-domain Hoare triples on the real comparison/connective kernels against literal Kleene truth tables; bounded enumeration of literal expression trees for eval_expr",
         "kani_units": ["predicate"],
         "explanation": "",
@@ -305,10 +313,10 @@ PROPS = {
     },
     "C23": {
         "level": "proof",
-        "level_text": "Proof (complete over the input bytes) that the fixed-size decoders return a value or an error and never panic, overflow or read out of bounds: decode_varint on every byte string; the three file-header decoders on any 0..160 bytes; PageHeader::from_bytes / validate_page on any bytes of any length up to a page; decode_key behind every non-recursive known prefix (and 11 representative unknown prefix bytes) on any 0..24 bytes; RowSerde::deserialize_value for every fixed-width discriminant. Bounded (same source compiled with PAGE_SIZE = 256): LeafNode::{from_page, slot_at, key_at, value_at, value_len_at} and InteriorNode::{from_page, slot_at, key_at} on ANY page bytes and any index. Partial: JSONB, array, catalog, WAL-frame and HNSW decoders, recursive decode_key arms, InteriorNode::find_child and opening corrupted database files are not covered; RecordView getters are an open known finding.",
+        "level_text": "Proof (complete over the input bytes) that the fixed-size decoders return a value or an error and never panic, overflow or read out of bounds: decode_varint on every byte string; the three file-header decoders on any 0..160 bytes; PageHeader::from_bytes / validate_page on any bytes of any length up to a page; decode_key behind every non-recursive known prefix (and 11 representative unknown prefix bytes) on any 0..24 bytes; RowSerde::deserialize_value for every fixed-width discriminant; ToastPointer::decode (with decode(encode(p)) == p) and SQ8VectorRef::from_bytes on any bytes. Bounded (same source compiled with PAGE_SIZE = 256): LeafNode::{from_page, slot_at, key_at, value_at, value_len_at} and InteriorNode::{from_page, slot_at, key_at} on ANY page bytes and any index. Partial: JSONB, array, catalog, WAL-frame and HNSW decoders, recursive decode_key arms, InteriorNode::find_child and opening corrupted database files are not covered; RecordView getters are an open known finding.",
         "level_note": "Partial. Two defects found by these obligations were repaired (slot_at bound, value_at length overflow); one is open (RecordView getters panic on short records). Obligations that exceeded the machine budget are tier=manual and in no registered command (find_child, nested decode_key patterns). The file-system level clause (opening a corrupted database) is outside this technique.",
         "technique": "Kani Hoare triples over fully symbolic input bytes (and symbolic length / index) on the real decoders; Kani's bounds, overflow and unwrap checks are the postcondition",
-        "kani_units": ["varint", "key", "row_serde", "headers", "page", "leaf", "interior", "view"],
+        "kani_units": ["varint", "key", "row_serde", "headers", "page", "leaf", "interior", "view", "toast", "sq8"],
         "harness_timeout": 900,
         "explanation": "",
     },
